@@ -34,19 +34,24 @@ def legal : St → St → Bool
 def directDone (g : Graph) (st : Nat → St) (b : Nat) : Bool :=
   (g.build b).ordering.all (fun f => match g.producer f with | none => true | some p => st p == .done)
 
+/-- `-j` and every pool depth are respected by the states `st`. -/
+def withinLimits (g : Graph) (par : Nat) (shape : List (Bytes × Nat)) (st : Nat → St) : Bool :=
+  decide (cnt g.nBuilds (fun x => st x == .running) ≤ par) &&
+  shape.all (fun nd => nd.2 == 0 ||
+    decide (cnt g.nBuilds (fun x => st x == .running && (g.build x).pool == nd.1) ≤ nd.2))
+
 /-- What one event must satisfy after the history `tr`.  `shape` = pool names and depths. -/
 def okEv (g : Graph) (par : Nat) (shape : List (Bytes × Nat)) (tr : List Ev) : Ev → Bool
   | .set id prev new cs pend =>
     decide (id < g.nBuilds) && prev == stOf tr id && legal prev new &&
     cs == exactCounts g (upd (stOf tr) id new) &&
     pend == (cnt g.nBuilds (fun b => active (upd (stOf tr) id new b)) : Int) &&
-    (new != .ready || directDone g (stOf tr) id)
+    (new != .ready || directDone g (stOf tr) id) &&
+    (new != .running || withinLimits g par shape (upd (stOf tr) id new))
   | .update cs => cs == exactCounts g (stOf tr)
   | .start b =>
     (match tr with | .set b' .queued .running _ _ :: _ => b' == b | _ => false) &&
-    decide (cnt g.nBuilds (fun x => stOf tr x == .running) ≤ par) &&
-    shape.all (fun nd => nd.2 == 0 ||
-      decide (cnt g.nBuilds (fun x => stOf tr x == .running && (g.build x).pool == nd.1) ≤ nd.2)) &&
+    withinLimits g par shape (stOf tr) &&
     shape.any (fun nd => nd.1 == (g.build b).pool) &&
     directDone g (stOf tr) b
   | .finish b _ => stOf tr b == .running
